@@ -221,7 +221,7 @@ func (s *ReverseSuffixSearcher) Find(haystack []byte) *Match {
 		matchStart := s.reverseDFA.SearchReverse(revCache, haystack, 0, revEnd)
 		if matchStart >= 0 {
 			// Forward verification: get correct greedy match end.
-			matchEnd := s.forwardDFA.SearchAt(fwdCache, haystack, matchStart)
+			matchEnd := s.forwardDFA.SearchAtAnchored(fwdCache, haystack, matchStart)
 			if matchEnd >= 0 {
 				return NewMatch(matchStart, matchEnd, haystack)
 			}
@@ -316,7 +316,7 @@ func (s *ReverseSuffixSearcher) FindAt(haystack []byte, at int) *Match {
 		matchStart := s.reverseDFA.SearchReverseLimited(revCache, haystack, at, suffixEnd, minStart)
 		if matchStart >= 0 {
 			// Forward verification: get correct greedy match end (Issue #124)
-			matchEnd := s.forwardDFA.SearchAt(fwdCache, haystack, matchStart)
+			matchEnd := s.forwardDFA.SearchAtAnchored(fwdCache, haystack, matchStart)
 			if matchEnd >= 0 {
 				return NewMatch(matchStart, matchEnd, haystack)
 			}
@@ -412,7 +412,7 @@ func (s *ReverseSuffixSearcher) findIndicesAtImpl(haystack []byte, at int, fwdCa
 
 		matchStart := s.reverseDFA.SearchReverseLimited(revCache, haystack, at, suffixEnd, minStart)
 		if matchStart >= 0 {
-			matchEnd := s.forwardDFA.SearchAt(fwdCache, haystack, matchStart)
+			matchEnd := s.forwardDFA.SearchAtAnchored(fwdCache, haystack, matchStart)
 			if matchEnd >= 0 {
 				return matchStart, matchEnd, true
 			}
